@@ -145,12 +145,15 @@ package httpcache
 //@   ensures old(reqOIC(req)) ==> upstreamCalls == old(upstreamCalls)                      # name: only-if-cached-no-network   props: C18
 //@   ensures result1 != nil ==> lastUpstreamFailed                                         # name: error-only-from-origin   props: C10
 //@   ensures result0 != nil ==> statusIs(result0.Header, "BYPASS", false)                  # name: bypass-marked   props: C11
+//@   ensures result1 == nil && upstreamCalls != old(upstreamCalls) && !safeMethod(old(req.Method)) && lastUpstreamStatus >= 200 && lastUpstreamStatus < 400 ==> deletedKeys[urlKey]   # name: target-index-deleted   props: C07
+//@   ensures forall x string :: old(deletedKeys)[x] ==> deletedKeys[x]                     # name: deletions-accumulate   props: C07
 
 //@ func (*transport).RoundTrip
-//@   property C18 C10 C06 C03 C11
+//@   property C18 C10 C06 C03 C11 C07
 //@   requires wired(r) && req != nil && req.URL != nil
 //@   assigns *
 //@   ensures (result0 != nil) != (result1 != nil)                                          # name: result-shape   props: C10
 //@   ensures old(reqOIC(req)) ==> upstreamCalls == old(upstreamCalls)                      # name: only-if-cached-no-network   props: C18
 //@   ensures result0 != nil ==> result0.Header != nil && len(get(result0.Header, "X-Httpcache-Status")) == 1 && (cstatus(result0.Header) == "HIT" || cstatus(result0.Header) == "STALE" || cstatus(result0.Header) == "REVALIDATED" || cstatus(result0.Header) == "MISS" || cstatus(result0.Header) == "BYPASS")   # name: exactly-one-status   props: C11
 //@   ensures result0 != nil ==> ((hget(result0.Header, "X-From-Cache") == "1") == (cstatus(result0.Header) == "HIT" || cstatus(result0.Header) == "STALE" || cstatus(result0.Header) == "REVALIDATED")) && (cstatus(result0.Header) == "MISS" || cstatus(result0.Header) == "BYPASS" ==> !has(result0.Header, "X-From-Cache"))   # name: legacy-flag-exact   props: C11
+//@   ensures result1 == nil && !safeMethod(old(req.Method)) && upstreamCalls != old(upstreamCalls) && lastUpstreamStatus >= 200 && lastUpstreamStatus < 400 ==> deletedKeys[old(urlKeyOf(req.URL))]   # name: unsafe-success-invalidates-target   props: C07
